@@ -1105,7 +1105,8 @@ int cif_container_get_value(
                             }
 
                             FAILURE_HANDLER(inner):
-                            free(temp);
+                            /* release whatever the value had already been given when loading it failed */
+                            cif_value_free(temp);
                         }
 
                         sqlite3_reset(cif->get_value_stmt);
